@@ -159,6 +159,55 @@ def _job(rows, cols, alpha, name=None):
     return Job(name or f"{rows}x{cols}_over_{len(alpha)}", size, _chunk, (rows, cols, alpha), describe=f"all {rows}x{cols} matrices over {alpha} x min/max")
 
 
+def large_matrices():
+    """matrices with 11 to 24 rows/columns whose optimum is known by construction: a planted matching of zero entries in
+    an otherwise strictly positive matrix (minimise -> 0), and the negated matrix (maximise -> 0)"""
+    out = []
+    for n, m in ((1, 11), (11, 1), (11, 11), (12, 13), (13, 12), (24, 24)):
+        for shift in (0, 1, 10):
+            mat = [[1 + ((3 * i + 5 * j) % 7) for j in range(m)] for i in range(n)]
+            if n <= m:
+                plant = {i: (m - 1 - i + shift) % m for i in range(n)}
+            else:
+                cols = {j: (n - 1 - j + shift) % n for j in range(m)}
+                plant = {r: j for j, r in cols.items()}
+            for i, j in plant.items():
+                mat[i][j] = 0
+            out.append((mat, True))
+            out.append(([[-x for x in row] for row in mat], False))
+    return out
+
+
+def _large_chunk(params, lo, hi):
+    from solvor.hungarian import solve_hungarian
+
+    cases = large_matrices()
+    r = new_result()
+    for idx in range(lo, hi):
+        mat, minimize = cases[idx]
+        rows, cols = len(mat), len(mat[0])
+        wit = {"cost_matrix": mat, "minimize": minimize, "large": True}
+        r["n"] += 1
+        r["nontrivial"] += 1
+        try:
+            res = gcall(lambda: solve_hungarian([list(x) for x in mat], minimize=minimize), 10.0, 100_000_000)
+        except Exception as ex:  # noqa: BLE001
+            r["violations"].append(viol("solve_hungarian", "raised", wit, f"solve_hungarian({rows}x{cols} planted matrix, minimize={minimize}): {type(ex).__name__}: {ex}"))
+            continue
+        a = res.solution
+        r["outcomes"]["large:" + res.status.name] += 1
+        used = [x for x in a if x != -1] if isinstance(a, list) else None
+        if used is None or len(a) != rows or len(set(used)) != len(used) or len(used) != min(rows, cols) or any(x < -1 or x >= cols for x in a):
+            r["violations"].append(viol("solve_hungarian", "pair_count", wit, f"solve_hungarian on {mat}: assignment {a} is not a matching of size {min(rows, cols)}"))
+            continue
+        tot = sum(mat[i][a[i]] for i in range(rows) if a[i] != -1)
+        if tot != 0 or abs(res.objective) > 1e-9:
+            r["violations"].append(viol("solve_hungarian", "not_optimal", wit, f"solve_hungarian on {mat}, minimize={minimize}: assignment {a} totals {tot} (objective {res.objective}), the planted matching totals 0"))
+        if not r["samples"]:
+            r["samples"].append({"rows": rows, "cols": cols})
+    return r
+
+
 def jobs(tier, seed):
     js = []
     for k in (1, 2, 3, 4):
@@ -170,6 +219,7 @@ def jobs(tier, seed):
     for rc in ((2, 3), (3, 2), (2, 4), (4, 2)):
         js.append(_job(*rc, A4))
     js.append(_job(4, 4, A2))
+    js.append(Job("large_planted", len(large_matrices()), _large_chunk, None, chunk=1, describe="1x11 ... 24x24 matrices with a planted optimal matching (value 0), minimise and maximise"))
     for rc in ((2, 2), (2, 3), (3, 2), (3, 3)):
         js.append(_job(*rc, TINY, f"{rc[0]}x{rc[1]}_over_0_2^-40_1"))
     nb = 2 * (3**2 + 3**2 + 3**6 + 3**6 + 3**3 + 3**3)
@@ -193,6 +243,12 @@ def jobs(tier, seed):
 
 def replay(v):
     w = v["witness"]
+    if w.get("large"):
+        for i, (mat, mn) in enumerate(large_matrices()):
+            if mat == w["cost_matrix"] and mn == w["minimize"]:
+                rr = _large_chunk(None, i, i + 1)
+                return rr["violations"][0] if rr["violations"] else None
+        return None
     for h in w.get("history", []):
         from solvor.hungarian import solve_hungarian
 
